@@ -29,6 +29,18 @@ Labels == [i \in DOMAIN FieldList |-> FieldList[i][1]]
 \* the report file of input path  dir/stem.ext  is  outputs/stem.txt
 ReportName(stem) == "outputs/" \o stem \o ".txt"
 
+\* The command line (conditionalrewards.py -f FILE [-s] [-l LEVEL]).  LEVEL only chooses what is
+\* logged: INFO | i | DEBUG | d | FULL_DEBUG | dd; anything else is refused before anything runs.
+\* A report is written exactly when -s is given, and it does not depend on LEVEL.
+CliVariantClauses(v, reportName) ==
+    CASE v.name \in {"debug", "info"} ->
+           (IF v.rc = 0 /\ v.files = <<reportName>> /\ v.same THEN {} ELSE {"C16.Cli with log level " \o v.name})
+      [] v.name = "nosave" ->
+           (IF v.rc = 0 /\ v.files = <<>> THEN {} ELSE {"X.Cli without -s writes or fails"})
+      [] v.name = "badlevel" ->
+           (IF v.rc # 0 /\ v.files = <<>> THEN {} ELSE {"X.Cli unknown log level accepted"})
+      [] OTHER -> {"Machinery.CliVariant"}
+
 \* entry: record of text forms keyed by result key; block: sequence of [label, text]
 ExpectedText(entry, i) ==
     IF FieldList[i][2] = ""
